@@ -136,7 +136,7 @@ fn gen_case(rng: &mut Rng) -> Case {
         if !tag.ends_with("/>") || ctx < 2 || ctx == 4 {
             doc.extend(format!("</{name}>").as_bytes());
         }
-        if matches!(name, "font" | "annotation-xml" | "foreignObject" | "title" | "desc" | "mi" | "mo" | "mtext" | "image" | "br" | "p" | "b" | "i" | "em" | "div" | "span" | "li" | "ul" | "h1" | "img" | "center" | "code" | "dd" | "dt" | "dl" | "embed" | "hr" | "listing" | "menu" | "meta" | "nobr" | "ol" | "pre" | "ruby" | "s" | "small" | "strike" | "strong" | "sub" | "sup" | "table" | "tt" | "u" | "var" | "big" | "blockquote" | "h2") && ctx >= 2 {
+        if changes_ns_context(name) && ctx >= 2 {
             // integration points / breakout tags change the namespace context: skip the ns clause
             mode = String::from("plain");
         }
@@ -281,7 +281,11 @@ impl Property for C16 {
             if *can_have_content != expect_content {
                 return Ok(Err(Fail::new("C16.read", format!("tag {}: can_have_content()={can_have_content}, expected {expect_content} (ns {ns})", show(tag)))));
             }
-            if case.mode == "ns" {
+            // the generator keeps context-changing tags out of "ns" documents; a tag that appears
+            // by accident (an unquoted `>` ending a tag early) or by shrinking voids the premise
+            let foreign_doc = doc.starts_with(b"<svg") || doc.starts_with(b"<math");
+            let ns_known = !foreign_doc || !cap.toks.iter().any(|t| matches!(t, tokens::Tok::Start { name, .. } | tokens::Tok::End { name, .. } if changes_ns_context(name)));
+            if case.mode == "ns" && ns_known {
                 if let Some(n) = t.nodes.iter().position(|n| n.loc == *loc) {
                     let want_ns = expected_ns(&t, n);
                     if want_ns != *ns {
@@ -383,6 +387,17 @@ impl Property for C16 {
 
 /// Namespace from the foreign-content context (simple islands): svg / math roots, HTML inside
 /// SVG integration points and MathML text integration points.
+/// Integration points and the tags that break out of foreign content: with one of them present
+/// the namespace context is no longer known by construction.
+fn changes_ns_context(name: &str) -> bool {
+    matches!(
+        name.to_ascii_lowercase().as_str(),
+        "font" | "annotation-xml" | "foreignobject" | "title" | "desc" | "mi" | "mo" | "mn" | "ms" | "mtext" | "image" | "br" | "p" | "b" | "i" | "em" | "div" | "span" | "li" | "ul" | "img" | "center" | "code"
+            | "dd" | "dt" | "dl" | "embed" | "hr" | "listing" | "menu" | "meta" | "nobr" | "ol" | "pre" | "ruby" | "s" | "small" | "strike" | "strong" | "sub" | "sup" | "table" | "tt" | "u" | "var" | "big" | "blockquote"
+            | "body" | "head" | "h1" | "h2" | "h3" | "h4" | "h5" | "h6"
+    )
+}
+
 fn expected_ns(t: &tree::Tree, n: usize) -> &'static str {
     let node = &t.nodes[n];
     if node.name == "svg" {
